@@ -3,12 +3,14 @@ from ..core.model import Program
 from ..core.report import CheckContext
 from ..core.resolve import Resolver
 from ..rules import bookkeeping as bk
-from .common import run_control, generic_rules
+from ..rules import inval as _inval_rl
+from .common import run_control, generic_rules, anchor_funcs
 
 
 def analyse(ctx: CheckContext, p: Program):
     r = Resolver(p)
     ctx.guard(generic_rules, ctx, p, r, "C06")
+    ctx.guard(_inval_rl.check_round_last, ctx, p, r, anchor_funcs(p, "C06"))
     funcs = r.pipeline_cone()
     ctx.guard(bk.check_pinch_roles, ctx, p, r, funcs)
     ctx.guard(bk.check_symmetric_collapse, ctx, p, r, funcs)
@@ -24,6 +26,8 @@ def run(ctx: CheckContext):
     ]
     run_control(ctx, "C06/zero-pinch-dropped", analyse, p.root, "OpenPinch/classes/energy_target.py",
                 "        elif isinstance(self.cold_pinch, float):", "        elif self.cold_pinch:", "TRUTHY")
+    run_control(ctx, "C06/pinch-read-after-export-rounding", analyse, p.root, "OpenPinch/analysis/direct_integration_entry.py",
+                "    zone.add_target_from_results(TargetType.DI.value, res)\n    return zone", "    res[\"cold_pinch\"] = pt.pinch_temperatures()[1]\n    zone.add_target_from_results(TargetType.DI.value, res)\n    return zone", "ROUND-LAST")
     run_control(ctx, "C06/unpack-swapped", analyse, p.root, "OpenPinch/analysis/direct_integration_entry.py",
                 "hot_pinch, cold_pinch = pt.pinch_temperatures()", "cold_pinch, hot_pinch = pt.pinch_temperatures()", "ROLE")
     run_control(ctx, "C06/record-swapped", analyse, p.root, "OpenPinch/classes/energy_target.py",
